@@ -9,26 +9,30 @@ import (
 	"github.com/islishude/bip39"
 )
 
-// runCold: the first validations of a fresh process, made by many goroutines arriving a fraction of a microsecond
-// to a few microseconds apart (a server that starts taking requests).  Each caller checks a sentence that the
-// specification says must be accepted; what each call returned is recorded after the join and validated like any
-// sequential call.  Lazy construction of the lookup tables is exactly then under way.
+// runCold: the first calls of a fresh process, made by many goroutines arriving a fraction of a microsecond to a
+// few microseconds apart (a server that starts taking requests).  Even callers check a sentence that the
+// specification says must be accepted, odd callers encode an entropy of their own; what each call returned is
+// recorded after the join and validated like any sequential call.  Lazy construction of lookup tables (and of
+// anything else prepared on first use) is exactly then under way.
 func runCold(lang int64, seed int64, round int64) {
 	concMode = true
 	r := newRng(seed, "cold/"+strconv.FormatInt(lang, 10)+"/"+strconv.FormatInt(round, 10))
 	const G = 24
-	sents := make([]string, G)
-	for i := range sents {
-		sents[i] = sentence(indicesOf(r.bytes(sizes[r.intn(5)])), int(lang), " ")
-	}
-	emit(Event{"op": "Cut", "source": "os", "cold": true, "cold_lang": lang, "cold_seed": seed, "cold_round": round})
-	step := time.Duration(100+r.intn(4000)) * time.Nanosecond
 	type res struct {
+		sent  string
+		ent   []byte
+		out   string
 		err   error
 		valid bool
 		o     outcome
 	}
 	out := make([]res, G)
+	for i := range out {
+		out[i].sent = sentence(indicesOf(r.bytes(sizes[r.intn(5)])), int(lang), " ")
+		out[i].ent = r.bytes(sizes[r.intn(5)])
+	}
+	emit(Event{"op": "Cut", "source": "os", "cold": true, "cold_lang": lang, "cold_seed": seed, "cold_round": round})
+	step := time.Duration(100+r.intn(4000)) * time.Nanosecond
 	var start int32
 	var wg sync.WaitGroup
 	for i := 0; i < G; i++ {
@@ -39,9 +43,15 @@ func runCold(lang int64, seed int64, round int64) {
 			}
 			for t0 := time.Now(); time.Since(t0) < time.Duration(i)*step; {
 			}
+			if i%2 == 1 {
+				out[i].o = guarded(func() {
+					out[i].out, out[i].err = bip39.NewMnemonicByEntropy(out[i].ent, bip39.Language(lang))
+				})
+				return
+			}
 			out[i].o = guarded(func() {
-				out[i].err = bip39.CheckMnemonic(sents[i], bip39.Language(lang))
-				out[i].valid = bip39.IsMnemonicValid(sents[i], bip39.Language(lang))
+				out[i].err = bip39.CheckMnemonic(out[i].sent, bip39.Language(lang))
+				out[i].valid = bip39.IsMnemonicValid(out[i].sent, bip39.Language(lang))
 			})
 		}(i)
 	}
@@ -49,7 +59,14 @@ func runCold(lang int64, seed int64, round int64) {
 	atomic.StoreInt32(&start, 1)
 	wg.Wait()
 	for i := 0; i < G; i++ {
-		e := Event{"op": "Check", "in": units(sents[i]), "lang": langField(lang), "err": errRec(out[i].err), "valid": out[i].valid,
+		if i%2 == 1 {
+			ent := out[i].ent
+			e := Event{"op": "ByEntropy", "ent": ints(ent), "ent_len": len(ent), "ent_nil": false, "lang": langField(lang), "out": units(out[i].out),
+				"err": errRec(out[i].err), "ent_same": true, "conc": true, "cls": "cold", "g": i}
+			emit(out[i].o.into(e))
+			continue
+		}
+		e := Event{"op": "Check", "in": units(out[i].sent), "lang": langField(lang), "err": errRec(out[i].err), "valid": out[i].valid,
 			"in_same": true, "gen": true, "conc": true, "cls": "cold", "g": i}
 		emit(out[i].o.into(e))
 	}
